@@ -506,6 +506,7 @@ impl MultiLineWriter {
             !(buf@.len() == 0 && old(self).ending().len() == old(self).cap()),
         ensures
             final(self).inv(),                                         // [C05 C06 C07 C13] write preserves the representation invariant
+            final(self).buffered() <= final(self).cap(),               // [C20] the fill counter never exceeds the capacity (every later call computes capacity - written)
             final(self).cap() == old(self).cap(),                      // [C05] capacity never changes
             final(self).ending() == old(self).ending(),                // [C05] terminator never changes
             final(self).counters_ok_after(*old(self)),   // (helper: the diagnostic call counters grow by at most 4 per call)
@@ -529,6 +530,7 @@ impl MultiLineWriter {
             old(self).metrics.flushed < u64::MAX,   // C20 assumption: fewer than 2^64 flush calls
         ensures
             final(self).inv(),                                         // [C05 C06 C07 C13] flush preserves the representation invariant
+            final(self).buffered() <= final(self).cap(),               // [C20] the fill counter never exceeds the capacity (every later call computes capacity - written)
             final(self).cap() == old(self).cap(),                      // [C05] capacity never changes
             final(self).ending() == old(self).ending(),                // [C05] terminator never changes
             final(self).counters_flush(*old(self)),
